@@ -10,7 +10,7 @@ from .. import gen
 from ..oracles import vk
 from ..scripted_rng import Scripted
 
-RULE = ("von Karman variant: nx 2..40 odd and even, n_columns 1..4, pixel scale [0.01,1], r0 [0.05,1], L0/pixel in [5,1000]; "
+RULE = ("von Karman variant: nx 2..40 odd and even, n_columns 1..4, pixel scale [0.01,1], r0 [0.05,1], L0/pixel in [5,1e5]; "
         "Fried variant: requested nx 2..40 (internal 2^n+1, requested != internal), stencil_length_factor 1..4. The effective "
         "linear map of a row step is recovered black-box through the public behaviour with an injected scripted Generator "
         "(unit impulse in every working pixel with zero innovation -> column of M; zero screen with innovation e_k -> "
@@ -19,7 +19,7 @@ RULE = ("von Karman variant: nx 2..40 odd and even, n_columns 1..4, pixel scale 
         "VK n_columns>=2 and nx>=4; Fried requested != internal size or stencil_length_factor>=2. Distinct = canonical JSON.")
 ASSUMPTIONS = ["pixel (i, j) of the working array sits at (i, j) * pixel_scale, the new row at row -1",
                "covariances are evaluated in float32 by the library: identities hold to 5e-6 of the variance B(0) times (1 + sum|A| row norm)",
-               "L0/pixel_scale <= 1000: beyond that a one-pixel coordinate error is below float32 resolution and the check would be blind",
+               "tolerance = 8 eps cond(Cov(Z,Z)) (1+|A|_inf) relative to B(0): what a backward-stable explicit inverse in double precision leaves (measured 0.15 in these units); L0/pixel up to 1e5",
                "the private attribute _scrn is assigned to set screen content (only private name used)"]
 
 
@@ -68,6 +68,10 @@ def sigma(pos_a, pos_b, r0, L0):
     return vk.B(sep, r0, L0)
 
 
+# outer scale in pixels: the code imposes no limit other than refusing (LinAlgError) what it cannot factorise
+RATIO = st.one_of(gen.logfloat(5.0, 1000.0), gen.logfloat(1000.0, 1e5))
+
+
 @st.composite
 def vk_cases(draw, nmax=28):
     nx = draw(st.integers(2, nmax))
@@ -75,7 +79,7 @@ def vk_cases(draw, nmax=28):
     if draw(st.integers(0, 5)) == 0:
         ps = draw(st.sampled_from([1, 2]))                       # a pixel scale given as an integer is a valid pixel scale
     return {"kind": "vk", "nx": nx, "ncol": draw(st.integers(1, min(4, nx))), "ps": ps, "r0": draw(gen.logfloat(0.05, 1.0)),
-            "L0": ps * draw(gen.logfloat(5.0, 1000.0)), "seed": draw(st.integers(0, 2**31)), "c": draw(st.floats(-50, 50))}
+            "L0": ps * draw(RATIO), "seed": draw(st.integers(0, 2**31)), "c": draw(st.floats(-50, 50))}
 
 
 @st.composite
@@ -85,7 +89,7 @@ def fried_cases(draw, nmax=20):
     if draw(st.integers(0, 5)) == 0:
         ps = draw(st.sampled_from([1, 2]))
     return {"kind": "fried", "nx": nx, "factor": draw(st.integers(1, 4)), "ps": ps, "r0": draw(gen.logfloat(0.05, 1.0)),
-            "L0": ps * draw(gen.logfloat(5.0, 1000.0)), "seed": draw(st.integers(0, 2**31)), "c": draw(st.floats(-50, 50))}
+            "L0": ps * draw(RATIO), "seed": draw(st.integers(0, 2**31)), "c": draw(st.floats(-50, 50))}
 
 
 def body(ctx, p):
@@ -146,13 +150,20 @@ def body(ctx, p):
     Sxz = sigma(Xpos, Spos, r0, L0)
     Sxx = sigma(Xpos, Xpos, r0, L0)
     amp = 1.0 + float(np.max(np.sum(np.abs(A), axis=1)))
-    tol = 2e-6 * amp
+    # the code obtains A from an explicit inverse of Cov(Z,Z) in double precision: a backward-stable solve leaves a residual
+    # of a few eps * cond(Cov(Z,Z)) relative to the entries of Cov (which are of size B(0)); that is "equal to rounding" here
+    cond = float(np.linalg.cond(Szz))
+    unit = 2.3e-16 * cond + 1e-14
+    KTOL = 8.0
     e1 = float(np.max(np.abs(A @ Szz - Sxz))) / B0
-    ctx.residual("A Cov(Z,Z) - Cov(X,Z) over B(0), per unit (1+|A|_inf)", e1 / amp, 2e-6)
-    ctx.require(e1 <= tol, "A Cov(Z,Z) != Cov(X,Z): max error %.3g B(0) (tolerance %.3g); %s nx=%d (internal %d) pixel=%.3g L0=%.3g" % (e1, tol, kind, p["nx"], nxi, ps, L0))
+    ctx.residual("A Cov(Z,Z) - Cov(X,Z) over B(0), per unit eps cond(Czz) (1+|A|_inf)", e1 / (amp * unit), KTOL)
+    ctx.require(e1 <= KTOL * unit * amp, "A Cov(Z,Z) != Cov(X,Z): max error %.3g B(0) (tolerance %.3g = %g eps cond(Czz) (1+|A|), cond %.3g); %s nx=%d (internal %d) pixel=%.3g L0=%.3g" % (
+        e1, KTOL * unit * amp, KTOL, cond, kind, p["nx"], nxi, ps, L0))
     e2 = float(np.max(np.abs(A @ Szz @ A.T + B @ B.T - Sxx))) / B0
-    ctx.residual("A Czz A^T + B B^T - Cxx over B(0), per unit (1+|A|_inf)^2", e2 / amp ** 2, 2e-6)
-    ctx.require(e2 <= 2e-6 * amp * amp, "A Cov(Z,Z) A^T + B B^T != Cov(X,X): max error %.3g B(0); %s nx=%d (internal %d)" % (e2, kind, p["nx"], nxi))
+    ctx.residual("A Czz A^T + B B^T - Cxx over B(0), per unit eps cond(Czz) (1+|A|_inf)^2", e2 / (amp ** 2 * unit), KTOL)
+    ctx.require(e2 <= KTOL * unit * amp * amp, "A Cov(Z,Z) A^T + B B^T != Cov(X,X): max error %.3g B(0) (tolerance %.3g, cond %.3g); %s nx=%d (internal %d) pixel=%.3g L0=%.3g" % (
+        e2, KTOL * unit * amp * amp, cond, kind, p["nx"], nxi, ps, L0))
+    ctx.classes["cond(Czz) 1e%d" % int(math.floor(math.log10(cond)))] += 1
     # cross-check with the attributes the anchor mentions
     if kind == "vk" or ref not in code_st:
         order = np.argsort(code_st)
